@@ -34,8 +34,8 @@ theorem beBytes_length (v : Nat) : ∀ n, (beBytes n v).length = n := by
 
 theorem toBytes_nat (n v : Nat) (h : v < 256 ^ n) : toBytes n (v : Int) = .ok (beBytes n v) := by
   have h1 : ¬ ((v : Int) < 0) := by omega
-  have h2 : ¬ ((v : Int).toNat ≥ 256 ^ n) := by simp; omega
-  simp only [toBytes, h1, h2, if_false, Int.toNat_natCast]
+  have h2 : ¬ (v ≥ 256 ^ n) := by omega
+  simp only [toBytes, h1, if_false, Int.toNat_natCast, h2]
 
 /-! ## latitude / longitude -/
 
@@ -58,22 +58,47 @@ theorem writeLon_eq (m : Nat) (h : m < 360000000) :
   simp only [writeLon, h2]
   exact toBytes_nat 4 _ (by simp; omega)
 
-/-- rounding the decoded quotient to the nearest micro-degree gives the written value back -/
-theorem lat_round (m : Nat) : roundHalfEven (m * 16777216 / 703125 * 703125) 16777216 = m := by
-  unfold roundHalfEven
-  simp only []
-  split
-  · omega
-  · split <;> omega
+/-- if `L = ⌊m·D/703125⌋` then `L·703125/D` rounds to `m` (`D` = 2^24 or 2^23: the quotient is below
+`m` by less than `703125/D < 1/2`) -/
+theorem round_back (m D : Nat) (hD : 2 * 703125 < D) :
+    roundHalfEven (m * D / 703125 * 703125) D = m := by
+  have key : ∀ L : Nat, L * 703125 ≤ m * D → m * D < L * 703125 + 703125 →
+      roundHalfEven (L * 703125) D = m := by
+    intro L h1 h2
+    unfold roundHalfEven
+    simp only []
+    generalize hq : L * 703125 / D = q
+    generalize hr : L * 703125 % D = r
+    have hdm : D * q + r = L * 703125 := by rw [← hq, ← hr]; exact Nat.div_add_mod _ _
+    have hrlt : r < D := by rw [← hr]; exact Nat.mod_lt _ (by omega)
+    have hq1 : q ≤ m :=
+      Nat.le_of_mul_le_mul_left (c := D) (by rw [Nat.mul_comm D m]; omega) (by omega)
+    have hq2 : m < q + 2 :=
+      Nat.lt_of_mul_lt_mul_left (a := D) (by rw [Nat.mul_comm D m, Nat.mul_add]; omega)
+    rcases Nat.lt_or_ge q m with hlt | hge
+    · have hqm : m = q + 1 := by omega
+      subst hqm
+      rw [Nat.add_mul, Nat.one_mul, Nat.mul_comm q D] at h1 h2
+      have : 2 * r > D := by omega
+      simp [this]
+    · have hqm : q = m := by omega
+      subst hqm
+      rw [Nat.mul_comm q D] at h1 h2
+      have h3 : ¬ (2 * r > D) := by omega
+      have h4 : ¬ (2 * r = D ∧ q % 2 = 1) := by omega
+      simp [h3, h4]
+  apply key
+  · exact Nat.div_mul_le_self _ _
+  · have := Nat.lt_div_mul_add (a := m * D) (b := 703125) (by omega)
+    omega
+
+theorem lat_round (m : Nat) : roundHalfEven (m * 16777216 / 703125 * 703125) 16777216 = m :=
+  round_back m 16777216 (by omega)
 
 theorem lat_round_90 : roundHalfEven (2147483647 * 703125) 16777216 = 90000000 := by decide
 
-theorem lon_round (m : Nat) : roundHalfEven (m * 8388608 / 703125 * 703125) 8388608 = m := by
-  unfold roundHalfEven
-  simp only []
-  split
-  · omega
-  · split <;> omega
+theorem lon_round (m : Nat) : roundHalfEven (m * 8388608 / 703125 * 703125) 8388608 = m :=
+  round_back m 8388608 (by omega)
 
 /-! ## info-time -/
 
